@@ -224,12 +224,16 @@ def mon_c02(h, obs):
                                     f"GetInterchain({svc}).SourceReceiptCounter[{f}] = {m.get('src', {}).get('1356:'+f, 0)} but {len(lst)} receipts were accepted ({lst})",
                                     detail=st[3]))
             for t_full, v in m.get("rc", {}).items():
+                if t_full.count(":") == 2 and not t_full.startswith("1356:"):
+                    continue       # a service on another BitXHub: those pairs are followed by the protocol monitors (C04 / C06) only
                 t = t_full.split(":", 1)[1] if t_full.count(":") == 2 else t_full
                 if (svc, t) not in grouped and ORDERED.get(t, True) and ORDERED.get(svc, True) and v != len(acc_rcpt.get((svc, t), [])):
                     hits.append(Hit("C02/receipt-counter-mismatch",
                                     f"GetInterchain({svc}).ReceiptCounter[{t}] = {v} but accepted receipts are {acc_rcpt.get((svc, t), [])}", detail=st[3]))
             # entries for pairs with no accepted request must be absent / zero
             for t_full, v in m.get("ic", {}).items():
+                if t_full.count(":") == 2 and not t_full.startswith("1356:"):
+                    continue
                 t = t_full.split(":", 1)[1] if t_full.count(":") == 2 else t_full
                 if ORDERED.get(t, True) and v != len(acc_req.get((svc, t), [])):
                     hits.append(Hit("C02/interchain-counter-mismatch",
